@@ -70,7 +70,7 @@ func vServerSession(tok, payload []byte, key [4]byte) []byte {
 	hconn := &vHalf{in: req}
 	hs, err := u.Upgrade(hconn)
 	if err != nil {
-		return append(obs, "upgrade-error"...)
+		return vSessProblem(obs, "upgrade-error")
 	}
 	obs = append(obs, byte(len(hs.Extensions)))
 	obs = append(obs, hconn.out...)
@@ -92,17 +92,27 @@ func vServerSession(tok, payload []byte, key [4]byte) []byte {
 	conn := &vHalf{in: wire}
 	data, op, err := wsutil.ReadClientData(conn)
 	if err != nil {
-		return append(obs, "read-error"...)
+		return vSessProblem(obs, "read-error")
 	}
 	obs = append(obs, byte(op))
 	obs = append(obs, data...)
 	// answer: through the fragmenting writer with the compression bit state attached
 	var ms MessageState
 	ms.SetCompressed(true)
+	// (another connection of this process has just failed while using a pooled writer of the
+	// same size class and handed it back, as a deferred PutWriter does)
+	broken := wsutil.GetWriter(&vFailW{}, ws.StateServerSide, ws.OpBinary, 128)
+	broken.Write(data)
+	broken.Flush()
+	wsutil.PutWriter(broken)
 	w := wsutil.GetWriter(conn, ws.StateServerSide|ws.StateExtended, ws.OpText, 128)
 	w.SetExtensions(&ms)
-	w.Write(data)
-	w.Flush()
+	if _, err := w.Write(data); err != nil {
+		obs = vSessProblem(obs, "pooled-writer-write-error")
+	}
+	if err := w.Flush(); err != nil {
+		obs = vSessProblem(obs, "pooled-writer-flush-error")
+	}
 	wsutil.PutWriter(w)
 	wsutil.WriteServerMessage(conn, ws.OpClose, ws.NewCloseFrameBody(ws.StatusNormalClosure, "bye"))
 	obs = append(obs, conn.out...)
@@ -113,7 +123,7 @@ func vServerSession(tok, payload []byte, key [4]byte) []byte {
 	cconn := &vHalf{in: vMaskedFrame(8, true, key, bad)}
 	_, _, cerr := wsutil.ReadClientData(cconn)
 	if cerr == nil {
-		return append(obs, "bad-close-accepted"...)
+		return vSessProblem(obs, "bad-close-accepted")
 	}
 	obs = append(obs, cconn.out...)
 	// and a client-side masked write of a pooled size right afterwards
@@ -121,7 +131,7 @@ func vServerSession(tok, payload []byte, key [4]byte) []byte {
 	msg := append(bytes.Repeat([]byte{'m'}, 99), payload[1])
 	wsutil.WriteClientMessage(out, ws.OpBinary, msg)
 	if len(out.all) != 6+100 {
-		return append(obs, "client-write-error"...)
+		return vSessProblem(obs, "client-write-error")
 	}
 	for i := 0; i < 100; i++ {
 		obs = append(obs, out.all[6+i]^out.all[2+i%4])
@@ -136,6 +146,15 @@ func vServerSession(tok, payload []byte, key [4]byte) []byte {
 		obs = append(obs, '=')
 	}
 	return obs
+}
+
+// vSessProblems counts the steps of a session that did not go as they do for a session running
+// alone (each also leaves a marker in the observation).
+var vSessProblems int
+
+func vSessProblem(obs []byte, what string) []byte {
+	vSessProblems++
+	return append(obs, what...)
 }
 
 var vSharedDialer = ws.Dialer{Protocols: []string{"chat"}, Extensions: []httphead.Option{httphead.NewOption("permessage-deflate", map[string]string{"client_max_window_bits": ""})}}
@@ -157,7 +176,7 @@ func vClientSession(payload []byte) []byte {
 	}}
 	_, hs, err := d.Upgrade(srv, &url.URL{Scheme: "ws", Host: "h", Path: "/"})
 	if err != nil {
-		return append(obs, "dial-error"...)
+		return vSessProblem(obs, "dial-error")
 	}
 	obs = append(obs, hs.Protocol...)
 	obs = append(obs, '[')
@@ -173,7 +192,7 @@ func vClientSession(payload []byte) []byte {
 	wsutil.WriteClientMessage(out, ws.OpBinary, payload)
 	fs, ok := vParse(out.all)
 	if !ok || len(fs) != 1 {
-		return append(obs, "write-error"...)
+		return vSessProblem(obs, "write-error")
 	}
 	obs = append(obs, fs[0].payload...)
 	// a message from the server with an interleaved ping that the client answers
@@ -185,12 +204,12 @@ func vClientSession(payload []byte) []byte {
 	conn := &vHalf{in: wire}
 	data, _, err := wsutil.ReadServerData(conn)
 	if err != nil {
-		return append(obs, "read-error"...)
+		return vSessProblem(obs, "read-error")
 	}
 	obs = append(obs, data...)
 	fs, ok = vParse(conn.out)
 	if !ok || len(fs) != 1 {
-		return append(obs, "pong-error"...)
+		return vSessProblem(obs, "pong-error")
 	}
 	obs = append(obs, fs[0].op)
 	obs = append(obs, fs[0].payload...)
@@ -198,11 +217,11 @@ func vClientSession(payload []byte) []byte {
 	bad := append([]byte{0x88, 0x04, 0x03, 0xED}, 'n', payload[0]&0x7f)
 	bconn := &vHalf{in: bad}
 	if _, _, err := wsutil.ReadServerData(bconn); err == nil {
-		return append(obs, "bad-close-accepted"...)
+		return vSessProblem(obs, "bad-close-accepted")
 	}
 	fs, ok = vParse(bconn.out)
 	if !ok || len(fs) != 1 {
-		return append(obs, "close-reply-error"...)
+		return vSessProblem(obs, "close-reply-error")
 	}
 	obs = append(obs, fs[0].op)
 	obs = append(obs, fs[0].payload...)
